@@ -2,7 +2,7 @@
 from vf.gen import Module, Plan
 
 LIT_SETUP = '''
-import enum, math
+import enum, math, collections
 from decimal import Decimal
 from fractions import Fraction
 from adaptix._internal.code_tools.utils import get_literal_expr, get_literal_from_factory, is_singleton
@@ -74,12 +74,15 @@ def singleton_ok(v):
         return False
     return (not r) or v is None or v is Ellipsis or v is NotImplemented or isinstance(v, (bool, enum.Enum))
 
-FACTORIES = (list, dict, tuple, str, bytes, type(None), set, int, float, frozenset, MyList, bool)
+FACTORIES = (list, dict, tuple, str, bytes, type(None), set, int, float, frozenset, MyList, bool,
+             bytearray, complex, Decimal, Fraction, collections.deque, collections.OrderedDict, collections.Counter, collections.defaultdict, MyTuple, object)
 def factory_ok(s):
     f = FACTORIES[pick(s, len(FACTORIES))]
     e = get_literal_from_factory(f)
     if e is None: return True
-    return exact_same(eval(e), f())
+    got = eval(e)
+    if f is object: return False          # no literal denotes a fresh object()
+    return exact_same(got, f())
 '''
 
 E2E_SETUP = '''
@@ -478,7 +481,7 @@ def build(tier, seed):
          pre=["0 <= kind <= 9", "0 <= n <= 1", "0 <= s0 < len(SUB)"], timeout=tmo,
          family="is_singleton", bounds="containers (unhashable defaults) with <=1 element")
     m.ob("factory", "s: int", "return factory_ok(s)", pre=["0 <= s < len(FACTORIES)"], timeout=tmo,
-         family="get_literal_from_factory", bounds="12 factories")
+         family="get_literal_from_factory", bounds="22 zero-argument factories (builtin containers and scalars, bytearray, complex, Decimal, Fraction, collections classes, subclasses, object)")
     me = Module("c08_e2e").pre(E2E_SETUP)
     me.ob("builds", "x: int", "return not BUILD_ERRORS", timeout=30, family="end-to-end defaults",
           bounds="loader creation for every (kind, default) member")
